@@ -191,6 +191,15 @@ def m_multipart_discipline(run):
             else:
                 if not aborts:
                     f.append(f'{uid}: future failed/cancelled ({res[1]}) but no abort was issued (state={up["state"]})')
+                else:
+                    # "by the time the future is done": when result() returned, the abort had been issued
+                    when_result = next((i for i, r in enumerate(run.trace)
+                                        if r['ev'] == 'user_result' and r.get('label') == lb), None)
+                    when_abort = next((i for i, r in enumerate(run.trace)
+                                       if r['ev'] == 's3_begin' and r.get('op') == 'AbortMultipartUpload' and r.get('upload') == uid), None)
+                    if when_result is not None and (when_abort is None or when_abort > when_result):
+                        f.append(f'{uid}: result() of {lb} returned ({res[1]}) BEFORE the abort of its multipart upload was issued '
+                                 f'(the future was done while the upload was still open)')
     return f
 
 
